@@ -20,7 +20,9 @@ PY = "/venv/bin/python"
 
 def dump_yaml(cfg, path):
     import ruamel.yaml
-    yaml = ruamel.yaml.YAML(typ="safe")
+    # the round-trip dumper keeps the insertion order of mappings (the safe dumper sorts keys, which
+    # would undo every key permutation before floogen sees it)
+    yaml = ruamel.yaml.YAML()
     yaml.default_flow_style = False
     with open(path, "w", encoding="utf-8") as f:
         yaml.dump(cfg, f)
@@ -183,6 +185,15 @@ def permute_keys(obj, rng):
     return obj
 
 
+def reverse_keys(obj):
+    """same description, every mapping written in the opposite key order"""
+    if isinstance(obj, dict):
+        return {k: reverse_keys(v) for k, v in reversed(list(obj.items()))}
+    if isinstance(obj, list):
+        return [reverse_keys(v) for v in obj]
+    return obj
+
+
 INPROC_SCRIPT = r'''
 import sys, json, warnings, logging
 warnings.filterwarnings("ignore"); logging.disable(logging.CRITICAL)
@@ -218,13 +229,16 @@ class C15Runner:
                    routers=[{"name": "r"}], connections=[{"src": "solo", "dst": "r"}])
         cases.append(("one-endpoint", one))
         # an endpoint shifted by its own xy_id_offset (x != y: key order of the mapping must not matter)
-        xo = gen_desc.gen_mesh(rng, "XY", "axi", m=2, n=2, sides=[], partial_local=False)
-        if xo:
-            xo = json.loads(json.dumps(xo))
-            xo["endpoints"].append({"name": "far", "addr_range": {"base": 0x7000_0000, "size": 0x100},
-                                    "sbr_port_protocol": ["axi_out"], "xy_id_offset": {"x": 3, "y": 1}})
-            xo["connections"].append({"src": "far", "dst": xo["routers"][0]["name"], "dst_idx": [1, 0], "dst_dir": "East"})
-            cases.append(("xy-offset", xo))
+        xo = gen_desc.base_cfg(rng, "xo", "axi", "XY", 32)
+        xo.update(endpoints=[{"name": "tile", "array": [2, 2], "addr_range": {"base": 0x1000_0000, "size": 0x1_0000},
+                              "mgr_port_protocol": ["axi_in"], "sbr_port_protocol": ["axi_out"]},
+                             {"name": "far", "addr_range": {"base": 0x7000_0000, "size": 0x100},
+                              "sbr_port_protocol": ["axi_out"], "xy_id_offset": {"x": 3, "y": 1}}],
+                  routers=[{"name": "r", "array": [2, 2], "degree": 5}],
+                  connections=[{"src": "tile", "dst": "r", "src_range": [[0, 1], [0, 1]], "dst_range": [[0, 1], [0, 1]],
+                                "dst_dir": "Eject"},
+                               {"src": "far", "dst": "r", "dst_idx": [1, 0], "dst_dir": "East"}])
+        cases.append(("xy-offset", xo))
         # degenerate widths: one column / one row under XY (zero-bit coordinate fields)
         for (m, n, sides) in [(1, 3, ["North"]), (3, 1, ["East"])]:
             c = gen_desc.gen_mesh(rng, "XY", rng.choice(["axi", "narrow-wide"]), m=m, n=n, sides=sides, partial_local=False)
@@ -240,6 +254,7 @@ class C15Runner:
                 (name, "full/seed0", dict(cfg=cfg, env_extra={"PYTHONHASHSEED": "0"})),
                 (name, "full/seed1/cwd2", dict(cfg=cfg, env_extra={"PYTHONHASHSEED": "1"}, cwd=cwd2)),
                 (name, "full/seedrandom/permuted", dict(cfg=perm, env_extra={"PYTHONHASHSEED": "random"})),
+                (name, "full/reversed-keys", dict(cfg=reverse_keys(cfg), env_extra={"PYTHONHASHSEED": "2"})),
                 (name, "only-pkg", dict(cfg=cfg, extra_args=["--only-pkg"])),
                 (name, "only-top", dict(cfg=cfg, extra_args=["--only-top"])),
                 (name, "stdout", dict(cfg=cfg, outdir=False)),
@@ -305,7 +320,7 @@ class C15Runner:
                 fail("files-missing", name, str(list(files)), cfg)
                 continue
             stats["descriptions"] += 1
-            for kind in ("full/seed1/cwd2", "full/seedrandom/permuted"):
+            for kind in ("full/seed1/cwd2", "full/seedrandom/permuted", "full/reversed-keys"):
                 o = r[kind]
                 if o["rc"] != 0 or {k: strip_year(v) for k, v in o["files"].items()} != files:
                     fail("nondeterministic:" + kind, name, f"rc={o['rc']} files differ from the PYTHONHASHSEED=0 run", cfg)
